@@ -51,3 +51,6 @@ dispatch, not about Python source. -/
 #print axioms C19.construct_whitelists_tight
 #print axioms C19.step_refines_rows
 #print axioms C19.run_refines_rows
+#print axioms C19.pyIndex_none_iff
+#print axioms C19.pyIndex_some
+#print axioms C19.pick_refines_rows
